@@ -5,6 +5,7 @@ import (
 	"fmt"
 	"os"
 	"strings"
+	"syscall"
 
 	"verif/ck"
 	"verif/gw"
@@ -144,4 +145,15 @@ func readFileMax(path string, max int64) ([]byte, error) {
 	b := make([]byte, max)
 	n, _ := f.Read(b)
 	return b[:n], nil
+}
+
+func fileOwner(path string) (int, int) {
+	fi, err := os.Stat(path)
+	if err != nil {
+		return -1, -1
+	}
+	if st, ok := fi.Sys().(*syscall.Stat_t); ok {
+		return int(st.Uid), int(st.Gid)
+	}
+	return -1, -1
 }
